@@ -37,8 +37,9 @@ def observe_guard_calls(name, src, R_opt=None):
             d = {"dir": "other"}
             if t is not None and t.type == "IDENTIFIER" and t.value.upper() in ("IFNDEF", "ENDIF"):
                 if t.value.upper() == "ENDIF":
-                    k = context.skip_ws(j + 1, nl=True, comment=True)
-                    d = {"dir": "endif", "after": context.peek_token(k) is not None}
+                    # independent of the context helpers: is anything but blanks and comments left after `endif`
+                    rest = context.tokens[j + 1:]
+                    d = {"dir": "endif", "after": any(x.type not in ("SPACE", "TAB", "NEWLINE", "COMMENT", "MULT_COMMENT") for x in rest)}
                 else:
                     k = context.skip_ws(j + 1)
                     m = context.peek_token(k)
@@ -88,12 +89,34 @@ def body(rng):
     return "\n".join(rng.sample(decls, k)) + "\n"
 
 
+LAYOUTS = [
+    ("endif-block-comment", lambda t, g: t[:-1] + f" /* {g} */\n"),
+    ("endif-line-comment", lambda t, g: t[:-1] + f" // {g}\n"),
+    ("endif-then-block-comment", lambda t, g: t + "/* end of file */\n"),
+    ("endif-then-comment-lines", lambda t, g: t + "// a\n/*\n** b\n*/\n"),
+    ("endif-then-empty-line", lambda t, g: t + "\n"),
+    ("endif-no-final-newline", lambda t, g: t[:-1]),
+    ("comment-before-ifndef", lambda t, g: t.replace(f"#ifndef {g}", f"/* guard */\n#ifndef {g}")),
+    ("line-comment-before-ifndef", lambda t, g: t.replace(f"#ifndef {g}", f"// guard\n#ifndef {g}")),
+    ("comment-after-ifndef", lambda t, g: t.replace(f"#ifndef {g}\n", f"#ifndef {g} /* c */\n")),
+    ("comment-after-define", lambda t, g: t.replace(f"# define {g}\n", f"# define {g} /* c */\n")),
+    ("comment-between", lambda t, g: t.replace(f"# define {g}\n", f"# define {g}\n/* c */\n")),
+    ("spaces-inside-directives", lambda t, g: t.replace(f"#ifndef {g}", f"#  ifndef   {g}").replace("#endif", "# endif")),
+]
+
+
 def variants(base, rng):
     g = base.upper().replace(".", "_")
     b = body(rng)
     h = header.header42(base)
     ok = f"{h}\n#ifndef {g}\n# define {g}\n\n{b}\n#endif\n"
     out = [("correct", base, ok, set())]
+    # layouts that say the same thing: comments and blank lines around the guard lines change nothing
+    lay = rng.choice(LAYOUTS)
+    out.append(("correct/" + lay[0], base, lay[1](ok, g), set()))
+    lay2 = rng.choice(LAYOUTS)
+    out.append(("G3_no_define/" + lay2[0], base, lay2[1](ok.replace(f"# define {g}\n", ""), g), {"HEADER_PROT_NODEF"}))
+    out.append(("G6_code_after/" + lay2[0], base, lay2[1](ok, g) + "int\tft_late(void);\n", {"HEADER_PROT_ALL_AF"}))
     other = "OTHER_" + g if len(g) < 10 else g[:-1] + "X"
     out.append(("G1_other_symbol", base, ok.replace(f"#ifndef {g}", f"#ifndef {other}").replace(f"# define {g}", f"# define {other}"), {"HEADER_PROT_NAME"}))
     if g.lower() != g:
